@@ -552,6 +552,12 @@ class Model:
             return Opaque('name')
         return BoundModel(v, attr)
 
+    def var_iter(self, interp, v: SVar, node):
+        """Iterating the value of one vector (tuple(x.values), a loop over x.value): its three numbers."""
+        if v.kind == 'raw' and isinstance(v.term, Vec):
+            return self.call_method(interp, v, 'tolist', [], {}, node)
+        return None
+
     def misc_attr(self, interp, obj, attr: str, node):
         if isinstance(obj, BoundModel):
             v = obj.recv
